@@ -220,6 +220,56 @@ def c09_identity_scan():
     return [rec("C09.no-identity-dependence", not hits, "; ".join(hits))]
 
 
+def c09_set_order_unobservable():
+    """C09(a): on the simulation path, the iteration order of a python set (hash order: object addresses, per-process string
+    hashes) must not be observable.  Syntactic, conservative: a loop or comprehension over a local that is built as a set may
+    only write attributes / add to sets; it may not accumulate numbers (float addition is not associative), build an ordered
+    container, or stop early (first-match semantics)."""
+    fns = _functions()
+    hits = []
+    for k in sorted(reachable([("BaseProject", "simulate"), ("BaseProject", "backward_simulate")]), key=lambda x: (x[0] or "", x[1])):
+        fn = fns[k]
+        setnames = set()
+        for n in ast.walk(fn):
+            if isinstance(n, ast.Assign) and len(n.targets) == 1 and isinstance(n.targets[0], ast.Name):
+                v = n.value
+                if isinstance(v, (ast.Set, ast.SetComp)) or (isinstance(v, ast.Call) and isinstance(v.func, ast.Name)
+                                                                 and v.func.id in ("set", "frozenset")):
+                    setnames.add(n.targets[0].id)
+        if not setnames:
+            continue
+        where = "%s.%s" % (k[0] or "", k[1])
+
+        def is_set(x):
+            return (isinstance(x, ast.Name) and x.id in setnames) or isinstance(x, (ast.Set, ast.SetComp)) or (
+                isinstance(x, ast.Call) and isinstance(x.func, ast.Name) and x.func.id in ("set", "frozenset"))
+        for n in ast.walk(fn):
+            if isinstance(n, ast.For) and is_set(n.iter):
+                for b in n.body:
+                    for m in ast.walk(b):
+                        if isinstance(m, ast.AugAssign) and isinstance(m.target, ast.Name):
+                            hits.append("%s:%d accumulates `%s` while iterating the set `%s`" % (where, m.lineno, ast.unparse(m)[:40], ast.unparse(n.iter)[:30]))
+                        if isinstance(m, ast.Call) and isinstance(m.func, ast.Attribute) and m.func.attr in ("append", "extend", "insert"):
+                            hits.append("%s:%d builds an ordered container (`%s`) while iterating the set `%s`" % (where, m.lineno, ast.unparse(m)[:40], ast.unparse(n.iter)[:30]))
+                        if isinstance(m, ast.Return):
+                            hits.append("%s:%d leaves the iteration over the set `%s` early" % (where, m.lineno, ast.unparse(n.iter)[:30]))
+                    own = [b]
+                    while own:                       # `break` of this loop itself (not of a loop nested in its body)
+                        m = own.pop()
+                        if isinstance(m, ast.Break):
+                            hits.append("%s:%d leaves the iteration over the set `%s` early" % (where, m.lineno, ast.unparse(n.iter)[:30]))
+                        if not isinstance(m, (ast.For, ast.While)):
+                            own += list(ast.iter_child_nodes(m))
+            if isinstance(n, (ast.ListComp, ast.GeneratorExp, ast.DictComp)):
+                for g in n.generators:
+                    if is_set(g.iter):
+                        hits.append("%s:%d ordered comprehension over the set `%s`" % (where, n.lineno, ast.unparse(g.iter)[:30]))
+            if isinstance(n, ast.Call) and isinstance(n.func, ast.Name) and n.func.id in ("list", "tuple", "sum", "next", "iter", "enumerate", "zip") \
+                    and n.args and is_set(n.args[0]):
+                hits.append("%s:%d %s() over the set `%s`" % (where, n.lineno, n.func.id, ast.unparse(n.args[0])[:30]))
+    return [rec("C09.set-iteration-order-unobservable", not hits, "; ".join(hits))]
+
+
 def c09_mutable_defaults():
     """C09(d)/C18: a parameter with a mutable literal default that is stored in an attribute without copying must not be
     mutated in place anywhere in the model (state would leak between calls and between projects)"""
